@@ -8,7 +8,7 @@ def _extra(env):
     c = collections.Counter()
     for cid, case in env["cases"].items():
         a = env["results"].get(cid, "missing")
-        c["mode:" + case["payload"][0]] += 1
+        c["mode:" + case["payload"][1]] += 1
         if a.startswith("ok|"):
             c["ok"] += 1
             f = dict(x.split("=", 1) for x in a.split("|")[1:] if "=" in x)
@@ -27,7 +27,7 @@ def _extra(env):
                 c["fail_after_file_reads"] += 1
         else:
             c["other:" + a[:20]] += 1
-        src = case["payload"][2]
+        src = case["payload"][0]
         for tag, needle in (("uses_eval_value", "eval.value"), ("uses_import", "//{./"), ("uses_macro", "{:(@grammar"),
                             ("nested_eval", "\\\"")):
             if needle in src:
